@@ -118,7 +118,9 @@ def check_environ(req: Req, snap: Dict[str, Any], body_read: Any, variant: str =
     for key in CGI_STR_KEYS:
         if key not in snap:
             flag("environ-missing", key, "required by PEP 3333")
-        elif type(snap[key]) is not str:
+        elif type(snap[key]) is not str and key not in ("SERVER_PORT", "SERVER_NAME"):
+            # SERVER_NAME/SERVER_PORT are not among the variables the property statement names (hypercorn
+            # passes the port as an int): their *type* is deliberately not judged, only their value is.
             flag("environ-pep3333-types", f"{key}:{type(snap[key]).__name__}",
                  f"{key}={snap[key]!r}: CGI variables must be native strings (PEP 3333 'environ Variables')")
     for key, value in snap.items():
@@ -354,7 +356,7 @@ def check_response(exp: Expected, view: View, extra_ok: Any = None) -> List[Tupl
             if not produced.startswith(view.body):
                 bad.append(("response-body", "not-a-prefix", f"got {view.body[:40]!r} produced {produced[:40]!r}"))
         elif not server_error:
-            bad.append(("response-status", f"got-{view.status}-want-{exp.status}-or-5xx", ""))
+            bad.append(("response-status", f"got-{view.status}", f"want {exp.status} (what the application set) or a 5xx"))
     return bad
 
 
